@@ -84,7 +84,7 @@ pub fn worker(case: &Value) -> Value {
                 if class.starts_with("agree")
                     && let Some(m) = &o.mon
                 {
-                    let statics = (events.iter().any(|e| *e == 0 || *e == 1) as usize) + (events.iter().any(|e| *e == 3) as usize);
+                    let statics = (events.iter().any(|e| matches!(*e, 0 | 1 | 6 | 7)) as usize) + (events.iter().any(|e| *e == 3) as usize) + (events.iter().any(|e| matches!(*e, 6 | 7)) as usize);
                     for r in &m.trace {
                         // [pc, value, register, var_path, by_ref, states, top_is_arg, blocks, ret, gosub, stacktrace, fn_pending]
                         if r[8] == 0 && r[10] == 0 && r[6] == 0 && r[5] != 1 {
@@ -120,7 +120,7 @@ pub fn drive(tier: &str) -> i32 {
         cases.push(json!({"k": "args", "lo": lo, "hi": (lo + 25).min(total)}));
         lo += 25;
     }
-    let depth = if quick { 4 } else { 6 };
+    let depth = if quick { 4 } else { 5 };
     let histories = history_count(depth);
     for in_sub in [false, true] {
         if in_sub && !quick {
@@ -146,7 +146,7 @@ pub fn drive(tier: &str) -> i32 {
         run.capped = true;
     }
     let mut ev = Evidence::new("model_checking");
-    ev.set("rule", "E1 argument shapes: parameter types {%, &, !, #, $, record, array} x argument shapes {variable, array element, record field, STRING*3 variable, literal, literal of another numeric type, arithmetic, parenthesised variable, variable of another numeric type (must be rejected), user function call, nested call with its own by-reference argument} x callee actions {leave, assign, assign twice, pass on by reference} x {SUB, FUNCTION}; the same variable passed twice; recursion depths 0..3 with a local per activation. E2 call histories: the full tree of event sequences up to the depth over {call STATIC S, call O (which calls S), call P, Show F(1) with STATIC FUNCTION F as an argument expression, recursive R(2), assign DIM SHARED G}, at module level and inside an ordinary SUB; every history is compiled to a program, run on the implementation and on the reference model (static locals of S and F, SHARED values); the VM monitor checks one context state at module level and 1 + (STATIC subprograms called) memory blocks at the end.");
+    ev.set("rule", "E1 argument shapes: parameter types {%, &, !, #, $, record, array} x argument shapes {variable, array element, record field, STRING*3 variable, literal, literal of another numeric type, arithmetic, parenthesised variable, variable of another numeric type (must be rejected), user function call, nested call with its own by-reference argument} x callee actions {leave, assign, assign twice, pass on by reference} x {SUB, FUNCTION}; the same variable passed twice; recursion depths 0..3 with a local per activation. E2 call histories: the full tree of event sequences up to the depth over {call STATIC S, call O (which calls S), call P, Show F(1) with STATIC FUNCTION F as an argument expression, recursive R(2), assign DIM SHARED G, call STATIC Tally (which calls S), Deep 2 (a recursive ordinary SUB with a local per activation that calls S at the bottom and Tally on the way back)}, at module level and inside an ordinary SUB; every history is compiled to a program, run on the implementation and on the reference model (static locals of S, Tally and F, SHARED values); the VM monitor checks one context state at module level and 1 + (STATIC subprograms called) memory blocks at the end.");
     ev.set("exhaustive", !run.capped);
     ev.set("states", histories);
     ev.set("transitions", transitions);
